@@ -236,6 +236,9 @@ func txCoverage(prop string, results []txResult) (map[string]any, []report.Viol)
 
 func pullWait(sub string) model.Op { return model.Op{K: "pull", Sub: sub, Max: 10, Tgt: "wait"} }
 
+// streamWait: a StreamingPull that waits for its first message
+func streamWait(sub string) model.Op { return model.Op{K: "streamWait", Sub: sub} }
+
 // waiterGot: every listed waiter thread has returned and received >= 1 message.
 func waiterGot(waiters ...string) func(map[string]bool, map[string][]model.Obs, *world.World) string {
 	return func(done map[string]bool, obs map[string][]model.Obs, w *world.World) string {
@@ -299,6 +302,10 @@ func c10Scenarios(tier string) []txScen {
 	return s
 }
 
+// c10StreamLayer is set by the shim build: StreamingPull waiters, explored at
+// the streamer's lock / transaction gates.
+var c10StreamLayer func(t *testing.T, tier string, deadline time.Time) (map[string]any, []report.Viol, error)
+
 func init() {
 	otherChecks["C10"] = func(t *testing.T, tier string) int {
 		t0 := time.Now()
@@ -308,6 +315,26 @@ func init() {
 			return 2
 		}
 		cov, viols := txCoverage("C10", results)
+		if c10StreamLayer != nil && os.Getenv("VERIF_NO_SCHED") == "" {
+			c2, v2, err := c10StreamLayer(t, tier, t0.Add(budget(tier)))
+			if err != nil {
+				fmt.Fprintln(os.Stderr, "C10 harness (stream waiters):", err)
+				return 2
+			}
+			for k, v := range c2 {
+				cov["stream_waiter_"+k] = v
+			}
+			if ok, _ := c2["interleavings_complete"].(bool); !ok {
+				cov["schedules_exhaustive"] = false
+			}
+			if n, _ := c2["interleaving_schedules"].(int); n > 0 {
+				cov["schedule_executions"] = cov["schedule_executions"].(int) + n
+			}
+			if n, _ := c2["interleaving_decisions"].(int); n > 0 {
+				cov["schedule_decisions"] = cov["schedule_decisions"].(int) + n
+			}
+			viols = append(viols, v2...)
+		}
 		cov["states"] = cov["schedule_decisions"]
 		cov["transitions"] = cov["schedule_decisions"]
 		cov["traces_validated_against_impl"] = cov["schedule_executions"]
